@@ -2505,7 +2505,8 @@ def fam_sizes(rng, n, tier, mode="exact", part="all", grads=False):
     pos = lambda k: [rng.randint(1, 3) for _ in range(k)] if mode == "exact" else posfloats(rng, k)
     lens = AWKWARD if tier == "thorough" else [5, 7, 9, 13, 16, 17, 20, 21, 23, 28, 33, 65]
     # long leading dimensions (pairwise / blocked reductions of a broadcast operand's gradient, long sums)
-    for L in ([127, 129, 255, 257, 258] if tier != "thorough" else [127, 128, 129, 255, 256, 257, 258, 511, 513, 1030]):
+    # (with gradients the forward-mode reference costs one evaluation per input element: lengths are capped)
+    for L in ([127, 129, 255, 257, 258] if tier != "thorough" else ([127, 128, 129, 255, 256, 257, 258, 511, 513, 1030] if not grads else [127, 128, 129, 255, 256, 257, 258, 385])):
         for (da, db) in (([L, 2], [2]), ([2], [L, 2]), ([L, 1, 2], [1, 2]), ([L, 2], [1, 2]), ([L, 3], [L, 1])):
             if part in ("all", "ewise"):
                 P = ["new a %s %s" % (dims_s(da), vals_s(small(prod(da)), mode)), "new b %s %s" % (dims_s(db), vals_s(pos(prod(db)), mode))]
